@@ -10,4 +10,3 @@ CONSTANTS
   ListMax = 2
   ScopeListMax = 1
 INVARIANT LawSelect
-POSTCONDITION Visited
